@@ -245,7 +245,8 @@ class History:
             from model.stores import FileDisk
 
             self.scratch = tempfile.mkdtemp(prefix="verif-files-", dir="/dev/shm" if os.path.isdir("/dev/shm") else None)
-            self.disk = FileDisk(self.scratch, desc["file_stores"])
+            self.disk = FileDisk(self.scratch, desc["file_stores"], touch=desc.get("touch_stores", ()),
+                                 siblings=bool(desc.get("file_siblings")))
         else:
             self.disk = Disk()
         self.disk.tickv = float(desc.get("tick", 1.0))
